@@ -263,6 +263,23 @@ Proof.
   - intros q Hq Hst. apply (V1 q Hq). exact Hst.
 Qed.
 
+(* C03 + C07: along every such history every mint quote has been issued at most once per payment - where "issued" counts the
+   completed MintTokens that returned signatures AND the cut or faulted ones whose signatures reached the store *)
+Theorem quote_issued_at_most_once_with_cuts cfg h :
+  cfg_ok cfg -> Forall cut_item h -> hhonest cfg world0 h -> Forall item_u64 h ->
+  let '(w, iss, cred) := htrace cfg world0 h [] [] in
+  forall m, In m (d_mq (w_db w)) ->
+    cnt (mq_id m) iss <= esett w m + cnt (mq_id m) cred /\
+    (mq_state m = 0 -> cnt (mq_id m) iss <= cnt (mq_id m) cred).
+Proof.
+  intros Hc Hs Hh Hu. pose proof (htrace_vi cfg h world0 [] [] Hc Hs Hh Hu QInv0 VI0) as H.
+  destruct (htrace cfg world0 h [] []) as [[w iss] cred]. destruct H as [[H1 _] _].
+  intros m Hm. destruct (H1 m Hm) as [Hr [Hz [Ho Hi]]]. pose proof (esett_range w m). pose proof (cnt_nonneg (mq_id m) cred).
+  split; [|exact Hz].
+  assert (Hs' : mq_state m = 0 \/ (mq_state m = 1 \/ mq_state m = 2) \/ mq_state m = 3) by lia.
+  destruct Hs' as [Hs'|[Hs'|Hs']]; [specialize (Hz Hs')|specialize (Ho Hs')|specialize (Hi Hs')]; lia.
+Qed.
+
 (* ---------- non-vacuity: cuts and storage errors in swaps and mints, then the requests complete ---------- *)
 
 Definition cut_history : list hitem :=
